@@ -249,15 +249,17 @@ def _step(st, objs):
             nb = [x[key] for x in bal]
             nu = [x[key] for x in unb]
             flags_ok = all(x["balanced"] is True for x in bal) and all(x["balanced"] is False for x in unb)
-            vs = [(r in nb) for r in (rs if api != "dicts_one" else rs[:1])]
+            ins = rs if api != "dicts_one" else rs[:1]
+            vs = [(r in nb) for r in ins]
             full = [vs, nb, nu, flags_ok, len(bal) + len(unb)]
+            part = [vs, [ins.index(x) if x in ins else -1 for x in nb], [ins.index(x) if x in ins else -1 for x in nu]]
             if st.get("mutate"):
                 for x in bal + unb:
                     x["balanced"] = not x["balanced"]
                     x[key] = "C>>CC"
                 if isinstance(inp, list):
                     inp.clear()
-            return dict(model=vs, full=full)
+            return dict(model=part, full=full)
         if api == "parse":
             v = [BalanceReactionCheck.parse_input(rs, col), BalanceReactionCheck.parse_input(rs[0] if rs else "", col),
                  BalanceReactionCheck.parse_input([{col: r} for r in rs] + [{"zz": 1}, 5], col)]
